@@ -31,17 +31,23 @@ def clause_a(facts, rep, sanitize):
         bad = None
         n = 0
         try:
+            from ..minterp import Interp, Unsupported
             others = [0, 1, 31, 2048, 4063, 4064, 4065, 4095]
+            it = Interp(f, facts)
             for oa in range(4096):
                 for ob in others + [oa]:
-                    n += 1
-                    if run_bool(f, {env_ids['a']: 0x10000 + oa, env_ids['b']: 0x30000 + ob}):
-                        if oa + 32 > 4096 or ob + 32 > 4096:
-                            bad = (oa, ob)
+                    # both address orders: the operand near the end of its page may be the lower or the higher one
+                    for pa, pb in ((0x10000, 0x30000), (0x50000, 0x20000)):
+                        n += 1
+                        got = it.run({env_ids['a']: pa + oa, env_ids['b']: pb + ob}, {})[0]
+                        if got and (oa + 32 > 4096 or ob + 32 > 4096):
+                            bad = (oa, ob, 'a below b' if pa < pb else 'a above b')
                             break
+                    if bad:
+                        break
                 if bad:
                     break
-        except KeyError as ex:
+        except Unsupported as ex:
             raise AnalysisBroken('C14.a: in_page_32 not evaluable: %s' % ex)
         rep.extra['page_guard_evaluations'] = rep.extra.get('page_guard_evaluations', 0) + n
         rep.check(bad is None, 'E3.page-guard', f.qn, 'true only when a 32-byte load from either operand stays inside its page', f.loc,
@@ -289,7 +295,7 @@ def clause_e(facts, rep, namespaces=('::avx2::', '::sse::'), min_returns=6):
                 c = strip_expect(v['c'])
                 if c is not None and c.get('k') == 'bin' and c['op'] in ('<', '>'):
                     l, r = byte_load(c['l']), byte_load(c['r'])
-                    tv, ev_ = cval(v['then']), cval(v['else'])
+                    tv, ev_ = cval(v['a']), cval(v['b'])
                     if l and r and l[0] != 'signed' and r[0] != 'signed' and tv is not None and ev_ is not None:
                         less_when_true = (c['op'] == '<') == ((l[0], r[0]) == (0, 1))
                         ok = l[1] == r[1] and {l[0], r[0]} == {0, 1} and ((tv < 0 < ev_) if less_when_true else (ev_ < 0 < tv))
